@@ -34,7 +34,7 @@ void run_case(char *rest)
 	char *save = NULL, *d = strtok_r(rest, " ", &save), *fl = strtok_r(NULL, " ", &save), *ops = strtok_r(NULL, " ", &save);
 	char *tokp, *save2 = NULL;
 	struct json_tokener *tok;
-	int first = 1, dead = 0;   /* after an error status the API requires a reset: further parses are skipped */
+	int first = 1, dead = 0, armed = 0;   /* after an error status the API requires a reset: further parses are skipped */
 	long live0;
 	xa_reset();
 	live0 = xa_live;
@@ -62,6 +62,7 @@ void run_case(char *rest)
 			free(b);
 			e = json_tokener_get_error(tok);
 			dead = (e != json_tokener_success && e != json_tokener_continue);
+			if (armed) { xa_fail_at = -1; armed = 0; dead = 1; }
 			printf("%s %zu ", err_name(e), json_tokener_get_parse_end(tok));
 			if (e == json_tokener_success) jv_dump(o);
 			else if (o) printf("VALUE-WITH-ERROR");
@@ -69,6 +70,8 @@ void run_case(char *rest)
 			if (o) json_object_put(o);
 			break; }
 		case 'R': json_tokener_reset(tok); dead = 0; printf("reset"); break;
+		case 'M': /* fail the k-th allocation from now on, during the next parse only */
+			xa_fail_at = xa_count + atol(tokp + 1); armed = 1; printf("armed"); break;
 		case 'N':
 			json_tokener_free(tok);
 			tok = json_tokener_new_ex(atoi(d));
